@@ -21,6 +21,10 @@ def run(ctx):
     res = ctx.drv("agree-direct", outfile=ctx.scratch + "/agree_mm.ndjson", args={"logs": 150 if q else 4000})
     ctx.add("evaluations", res["runs"])
     ctx.add("distinct_nontrivial", res["nontrivial"])
+    # random logs of up to 8 days x up to 8 entries (foods repeating within a day) over nested books: the real
+    # reporters' per-day chunks validated step by step against Trace_Reporters.tla
+    common.trace_layer(ctx, "reporters-trace", "Trace_Reporters.tla", "Trace_Reporters.cfg", "reporters", "reporters-trace-rejected",
+                       {"logs": 150 if q else 4000}, "cmd/hranoprovod-cli")
     return vlib.finish(
         ctx, "model_checking",
         rule="Reporters.tla runs register, csv log, single element, single food, totals, quantity, element-by-food, unresolved and the balance "
